@@ -22,6 +22,7 @@ and many options to consider when collecting.
 """
 
 import abc
+from collections import deque
 from typing import List
 
 from deep import logging
@@ -50,8 +51,19 @@ LIST_LIKE_TYPES = [
 ]
 """A list of types that we should handle like lists."""
 
-__LIST_LIKE = (frozenset, set, list, tuple)
+__LIST_LIKE = (frozenset, set, list, tuple, deque)
 """The types themselves: an application class that is merely NAMED 'list' or 'tuple' is an object like any other."""
+
+
+def is_dict_like(variable_type: type) -> bool:
+    """Check for dict and the classes derived from it (OrderedDict, defaultdict, Counter, the application's own)."""
+    return issubclass(variable_type, dict)
+
+
+def is_list_like(variable_type: type) -> bool:
+    """Check for the list like types and the classes derived from them (a namedtuple, the application's own)."""
+    return issubclass(variable_type, __LIST_LIKE)
+
 
 ITER_LIKE_TYPES = [
     'list_iterator',
@@ -210,11 +222,14 @@ def variable_to_string(variable_type, var_value):
     if variable_type.__name__ in ITER_LIKE_TYPES:
         # if interator like then make a custom string - we do not want to mess with iterators
         return 'Iterator of type: %s' % variable_type
-    elif variable_type is dict \
-            or variable_type in __LIST_LIKE:
+    elif is_dict_like(variable_type) or is_list_like(variable_type):
         # if we are a collection then we do not want to use built in string as this can be very
         # large, and quite pointless, instead we just get the size of the collection
-        return 'Size: %s' % len(var_value)
+        try:
+            return 'Size: %s' % len(var_value)
+        except BaseException:
+            # a derived class can define its own __len__
+            return safe_str(var_value)
     else:
         # everything else just gets a string value
         return safe_str(var_value)
@@ -339,9 +354,9 @@ def find_children_for_parent(var_collector: Collector, parent_node: ParentNode, 
     :param variable_type: the type of the variable
     :return: list of child nodes
     """
-    if variable_type is dict:
+    if is_dict_like(variable_type):
         return process_dict_breadth_first(parent_node, variable_type.__name__, value)
-    elif variable_type in __LIST_LIKE:
+    elif is_list_like(variable_type):
         return process_list_breadth_first(var_collector, parent_node, value)
     elif isinstance(value, Exception):
         return process_list_breadth_first(var_collector, parent_node, value.args)
